@@ -46,21 +46,198 @@ fn wall_ms() -> u64 {
     use std::time::{SystemTime, UNIX_EPOCH};
     SystemTime::now().duration_since(UNIX_EPOCH).map(|d| d.as_millis() as u64).unwrap_or(0)
 }
-static CALL_START: AtomicU64 = AtomicU64::new(0); // wall ms, 0 = idle
-static CALL_DESC: Mutex<String> = Mutex::new(String::new());
-const HANG_MS: u64 = 300_000;
-
-/// a call that does not come back within HANG_MS (wall) cannot be interrupted: the watchdog reports it and
-/// ends the process (the check then reports the family as crashed, with this text)
-fn start_watchdog() {
-    std::thread::spawn(|| loop {
-        std::thread::sleep(std::time::Duration::from_millis(1000));
-        let st = CALL_START.load(Ordering::SeqCst);
-        if st != 0 && wall_ms().saturating_sub(st) > HANG_MS {
-            eprintln!("HANG property=C15,C17 a call did not return within {} s: {}", HANG_MS / 1000, CALL_DESC.lock().unwrap());
-            std::process::exit(3);
+// ---------------------------------------------------------------- isolation: jobs run in forked children
+// A call that never returns (or aborts the process: allocation failure, stack overflow) cannot be caught by
+// catch_unwind.  So every batch of jobs runs in a forked child (the process is single-threaded; the child
+// inherits the whole state copy-on-write) that reports, after each job, the findings / counters of that job as
+// one JSON line over a pipe.  The parent enforces a wall-clock limit per job: a child that is silent for longer
+// is killed, the job is recorded as `hang|<entry point>` (the entry point is read from a shared page the child
+// updates before every call), and a new child continues with the next job.  A child that dies is recorded as
+// `abort|<entry point>|signal`.
+static mut SHARED: *mut u8 = std::ptr::null_mut();
+fn shared_init() {
+    unsafe {
+        if SHARED.is_null() {
+            let p = libc::mmap(std::ptr::null_mut(), 4096, libc::PROT_READ | libc::PROT_WRITE, libc::MAP_SHARED | libc::MAP_ANONYMOUS, -1, 0);
+            if p != libc::MAP_FAILED {
+                SHARED = p as *mut u8;
+            }
         }
-    });
+    }
+}
+fn shared_set(entry: &str) {
+    unsafe {
+        if !SHARED.is_null() {
+            let b = entry.as_bytes();
+            let n = b.len().min(200);
+            *SHARED = n as u8;
+            std::ptr::copy_nonoverlapping(b.as_ptr(), SHARED.add(1), n);
+        }
+    }
+}
+/// a free-form note about the input being processed (second region of the shared page)
+fn shared_note(note: &str) {
+    unsafe {
+        if !SHARED.is_null() {
+            let b = note.as_bytes();
+            let n = b.len().min(3800);
+            *SHARED.add(256) = (n & 0xff) as u8;
+            *SHARED.add(257) = (n >> 8) as u8;
+            std::ptr::copy_nonoverlapping(b.as_ptr(), SHARED.add(258), n);
+        }
+    }
+}
+fn shared_get_note() -> String {
+    unsafe {
+        if SHARED.is_null() {
+            return String::new();
+        }
+        let n = (*SHARED.add(256) as usize) | ((*SHARED.add(257) as usize) << 8);
+        String::from_utf8_lossy(std::slice::from_raw_parts(SHARED.add(258), n.min(3800))).to_string()
+    }
+}
+fn shared_get() -> String {
+    unsafe {
+        if SHARED.is_null() {
+            return String::new();
+        }
+        let n = *SHARED as usize;
+        String::from_utf8_lossy(std::slice::from_raw_parts(SHARED.add(1), n.min(200))).to_string()
+    }
+}
+const HANG_MS: i64 = 120_000; // wall-clock fallback (a sleeping child); CPU-bound loops are ended by RLIMIT_CPU
+const JOB_CPU_S: u64 = 5;
+const CHILD_AS_LIMIT: u64 = 8 << 30;
+
+struct Job<'a> {
+    descr: Box<dyn Fn() -> J + 'a>,
+    size: usize,
+    run: Box<dyn Fn(&mut Cx) + 'a>,
+}
+
+fn run_jobs(cx: &mut Cx, jobs: Vec<Job<'_>>) {
+    if jobs.is_empty() {
+        return;
+    }
+    if std::env::var("ROBUST_NOFORK").is_ok() {
+        for j in &jobs {
+            (j.run)(cx);
+        }
+        return;
+    }
+    shared_init();
+    let n = jobs.len();
+    let mut next = 0usize;
+    while next < n {
+        let mut fds = [0i32; 2];
+        if unsafe { libc::pipe(fds.as_mut_ptr()) } != 0 {
+            panic!("pipe failed");
+        }
+        let pid = unsafe { libc::fork() };
+        if pid < 0 {
+            panic!("fork failed");
+        }
+        if pid == 0 {
+            // ---- child
+            unsafe {
+                libc::close(fds[0]);
+                let lim = libc::rlimit { rlim_cur: CHILD_AS_LIMIT, rlim_max: CHILD_AS_LIMIT };
+                libc::setrlimit(libc::RLIMIT_AS, &lim);
+            }
+            for j in next..n {
+                let mut d = Cx::new(cx.thorough);
+                unsafe {
+                    // CPU budget of one job: the kernel ends the child (SIGXCPU) when it is exceeded; CPU time, not
+                    // wall time, so a busy machine cannot produce a false alarm
+                    let mut ru: libc::rusage = std::mem::zeroed();
+                    libc::getrusage(libc::RUSAGE_SELF, &mut ru);
+                    let used = (ru.ru_utime.tv_sec + ru.ru_stime.tv_sec) as u64;
+                    let lim = libc::rlimit { rlim_cur: used + JOB_CPU_S + 1, rlim_max: libc::RLIM_INFINITY };
+                    libc::setrlimit(libc::RLIMIT_CPU, &lim);
+                }
+                shared_note("");
+                (jobs[j].run)(&mut d);
+                let mut line = d.delta_json().to_string();
+                line.push('\n');
+                let b = line.as_bytes();
+                let mut off = 0;
+                while off < b.len() {
+                    let w = unsafe { libc::write(fds[1], b[off..].as_ptr() as *const libc::c_void, b.len() - off) };
+                    if w <= 0 {
+                        unsafe { libc::_exit(4) };
+                    }
+                    off += w as usize;
+                }
+            }
+            unsafe { libc::_exit(0) };
+        }
+        // ---- parent
+        unsafe { libc::close(fds[1]) };
+        let mut buf: Vec<u8> = vec![];
+        let mut deadline = wall_ms() as i64 + HANG_MS;
+        let mut hung = false;
+        loop {
+            // complete lines first
+            while let Some(pos) = buf.iter().position(|c| *c == b'\n') {
+                let line: Vec<u8> = buf.drain(..=pos).collect();
+                if let Ok(v) = serde_json::from_slice::<J>(&line[..line.len() - 1]) {
+                    cx.merge_delta(&v);
+                }
+                next += 1;
+                deadline = wall_ms() as i64 + HANG_MS;
+            }
+            if next >= n {
+                break;
+            }
+            let left = deadline - wall_ms() as i64;
+            if left <= 0 {
+                hung = true;
+                break;
+            }
+            let mut pfd = libc::pollfd { fd: fds[0], events: libc::POLLIN, revents: 0 };
+            let r = unsafe { libc::poll(&mut pfd, 1, left.min(1000) as i32) };
+            if r > 0 {
+                let mut tmp = [0u8; 65536];
+                let k = unsafe { libc::read(fds[0], tmp.as_mut_ptr() as *mut libc::c_void, tmp.len()) };
+                if k > 0 {
+                    buf.extend(&tmp[..k as usize]);
+                } else {
+                    break; // EOF: the child is gone
+                }
+            }
+        }
+        let entry = shared_get();
+        let note = shared_get_note();
+        let with_note = |mut j: J| {
+            if let J::Object(m) = &mut j {
+                if !note.is_empty() {
+                    m.insert("input".into(), json!(note));
+                }
+            }
+            j
+        };
+        if hung {
+            unsafe { libc::kill(pid, libc::SIGKILL) };
+        }
+        let mut status = 0i32;
+        unsafe {
+            libc::waitpid(pid, &mut status, 0);
+            libc::close(fds[0]);
+        }
+        if next < n {
+            let job = &jobs[next];
+            if hung || (libc::WIFSIGNALED(status) && libc::WTERMSIG(status) == libc::SIGXCPU) {
+                cx.fail(&["C15", "C17"], &format!("hang|{}", entry),
+                    &format!("{} did not return within {} s of CPU time on {} input bytes (the child process running it was ended)", entry, JOB_CPU_S, job.size), job.size, || with_note((job.descr)()));
+            } else {
+                let how = if libc::WIFSIGNALED(status) { format!("signal-{}", libc::WTERMSIG(status)) } else { format!("exit-{}", libc::WEXITSTATUS(status)) };
+                cx.fail(&["C15", "C17"], &format!("abort|{}|{}", entry, how),
+                    &format!("{} ended the process ({}) on {} input bytes: not a catchable panic (allocation failure / stack overflow / abort)", entry, how, job.size), job.size, || with_note((job.descr)()));
+            }
+            cx.rep.count("jobs_lost");
+            next += 1;
+        }
+    }
 }
 
 // ---------------------------------------------------------------- findings
@@ -83,7 +260,133 @@ struct Cx {
 const ALLOC_BASE: u64 = 64 << 20;
 const CPU_LIMIT_MS: u64 = 2000;
 
+/// where a panic happened, in a form that survives unrelated edits: source file, enclosing fn (looked up in the
+/// current source at the reported line), first line of the message with numerals and quoted data erased
+static SITE_CACHE: Mutex<BTreeMap<String, String>> = Mutex::new(BTreeMap::new());
+fn site(p: &PanicInfo) -> String {
+    let key = format!("{}|{}", p.location, p.message.lines().next().unwrap_or(""));
+    if let Some(s) = SITE_CACHE.lock().unwrap().get(&key) {
+        return s.clone();
+    }
+    let s = site_uncached(p);
+    SITE_CACHE.lock().unwrap().insert(key, s.clone());
+    s
+}
+fn site_uncached(p: &PanicInfo) -> String {
+    let (path, line) = match p.location.rsplit_once(':') {
+        Some((f, l)) => (f.to_string(), l.parse::<usize>().unwrap_or(0)),
+        None => (p.location.clone(), 0),
+    };
+    let file = if path.contains("/rustc/") || path.contains("/.cargo/") || path.contains("/rustlib/") {
+        format!("std:{}", path.rsplit('/').take(2).collect::<Vec<_>>().into_iter().rev().collect::<Vec<_>>().join("/"))
+    } else {
+        path.rsplit("/rust/").next().unwrap_or(&path).to_string()
+    };
+    let mut func = String::from("?");
+    if !file.starts_with("std:") {
+        if let Ok(src) = std::fs::read_to_string(&path) {
+            let lines: Vec<&str> = src.lines().collect();
+            let mut i = line.min(lines.len());
+            while i > 0 {
+                i -= 1;
+                let l = lines[i].trim_start();
+                let l = l.trim_start_matches("pub(crate) ").trim_start_matches("pub(super) ").trim_start_matches("pub ").trim_start_matches("const ").trim_start_matches("unsafe ");
+                if let Some(rest) = l.strip_prefix("fn ") {
+                    func = rest.chars().take_while(|c| c.is_alphanumeric() || *c == '_').collect();
+                    break;
+                }
+            }
+        }
+    }
+    let first = p.message.lines().next().unwrap_or("");
+    let mut msg = String::new();
+    let mut in_q = false;
+    let mut prev_hash = false;
+    for c in first.chars() {
+        if c == '"' {
+            in_q = !in_q;
+            if !in_q {
+                msg.push('~');
+            }
+            continue;
+        }
+        if in_q {
+            continue;
+        }
+        if c.is_ascii_digit() {
+            if !prev_hash {
+                msg.push('#');
+            }
+            prev_hash = true;
+        } else {
+            msg.push(if c == ' ' || c == '|' { '_' } else { c });
+            prev_hash = false;
+        }
+    }
+    let msg: String = msg.chars().take(70).collect();
+    format!("{}|{}|{}", file, func, msg)
+}
+
+fn static_prop(p: &str) -> &'static str {
+    match p {
+        "C15" => "C15",
+        "C16" => "C16",
+        "C17" => "C17",
+        "C37" => "C37",
+        "C39" => "C39",
+        _ => "C15",
+    }
+}
+
 impl Cx {
+    fn new(thorough: bool) -> Cx {
+        Cx { rep: Report::new("robust"), found: BTreeMap::new(), thorough, max_alloc: 0, max_cpu: 0 }
+    }
+    /// what one job found, as JSON (sent from the child to the parent)
+    fn delta_json(&self) -> J {
+        let found: serde_json::Map<String, J> = self.found.iter().map(|(k, f)| {
+            (k.clone(), json!({"props": f.props, "what": f.what, "replay": f.replay, "size": f.size, "count": f.count}))
+        }).collect();
+        json!({"found": found, "dist": self.rep.dist, "evals": self.rep.evaluations, "nontrivial": self.rep.nontrivial.iter().collect::<Vec<_>>(),
+               "max_alloc": self.max_alloc, "max_cpu": self.max_cpu})
+    }
+    fn merge_delta(&mut self, v: &J) {
+        if let Some(m) = v["found"].as_object() {
+            for (sig, f) in m {
+                let size = f["size"].as_u64().unwrap_or(0) as usize;
+                let count = f["count"].as_u64().unwrap_or(1);
+                match self.found.get_mut(sig) {
+                    Some(e) => {
+                        e.count += count;
+                        if size < e.size {
+                            e.size = size;
+                            e.replay = f["replay"].clone();
+                            e.what = f["what"].as_str().unwrap_or("").to_string();
+                        }
+                    }
+                    None => {
+                        let props: Vec<&'static str> = f["props"].as_array().map(|a| a.iter().map(|x| static_prop(x.as_str().unwrap_or(""))).collect()).unwrap_or_default();
+                        self.found.insert(sig.clone(), Finding { props, what: f["what"].as_str().unwrap_or("").to_string(), replay: f["replay"].clone(), size, count });
+                    }
+                }
+            }
+        }
+        if let Some(m) = v["dist"].as_object() {
+            for (k, n) in m {
+                self.rep.add(k, n.as_u64().unwrap_or(0));
+            }
+        }
+        self.rep.evaluations += v["evals"].as_u64().unwrap_or(0);
+        if let Some(a) = v["nontrivial"].as_array() {
+            for x in a {
+                if let Some(k) = x.as_u64() {
+                    self.rep.nontrivial.insert(k);
+                }
+            }
+        }
+        self.max_alloc = self.max_alloc.max(v["max_alloc"].as_u64().unwrap_or(0));
+        self.max_cpu = self.max_cpu.max(v["max_cpu"].as_u64().unwrap_or(0));
+    }
     fn fail(&mut self, props: &[&'static str], sig: &str, what: &str, size: usize, replay: impl FnOnce() -> J) {
         let sig = sig.replace(' ', "_");
         match self.found.get_mut(&sig) {
@@ -104,27 +407,21 @@ impl Cx {
     /// run one call of the implementation: panic guard + allocation counter + CPU clock.
     /// `props`: the properties a panic of this call violates; `entry`: the entry point name of the signature.
     fn call<T>(&mut self, props: &[&'static str], entry: &str, input_len: usize, replay: &dyn Fn() -> J, f: impl FnOnce() -> T) -> Option<T> {
-        {
-            let mut d = CALL_DESC.lock().unwrap();
-            d.clear();
-            d.push_str(entry);
-            d.push(' ');
-            d.push_str(&replay().to_string().chars().take(4000).collect::<String>());
-        }
-        CALL_START.store(wall_ms(), Ordering::SeqCst);
+        shared_set(entry);
         crate::alloc::reset();
+        let base = crate::alloc::peak_begin();
         let t0 = cpu_ms();
         let r = guard(f);
         let dt = cpu_ms().saturating_sub(t0);
-        let (total, largest) = crate::alloc::stats();
-        CALL_START.store(0, Ordering::SeqCst);
+        let (_, largest) = crate::alloc::stats();
+        let total = crate::alloc::peak_since(base);
         self.rep.count(&format!("calls:{}", entry));
         self.max_alloc = self.max_alloc.max(total);
         self.max_cpu = self.max_cpu.max(dt);
         let limit = ALLOC_BASE + 1000 * input_len as u64;
         if total > limit {
             self.fail(&["C17"], &format!("alloc|{}", entry),
-                &format!("{} on {} input bytes requested {} bytes from the allocator (largest single request {}), limit 64 MiB + 1000 x input", entry, input_len, total, largest),
+                &format!("{} on {} input bytes held {} bytes of heap at one time (largest single request {}), limit 64 MiB + 1000 x input", entry, input_len, total, largest),
                 input_len, || replay());
         }
         if dt > CPU_LIMIT_MS {
@@ -134,7 +431,8 @@ impl Cx {
         match r {
             Ok(v) => Some(v),
             Err(p) => {
-                self.fail(props, &format!("panic|{}|{}", entry, p.signature()),
+                let class = if props.contains(&"C37") && !props.contains(&"C15") { "api" } else if props.contains(&"C16") && !props.contains(&"C15") { "loaded" } else { "decode" };
+                self.fail(props, &format!("panic|{}|{}|{}", class, site(&p), entry),
                     &format!("{} panicked: {} at {}", entry, p.message, p.location), input_len, || replay());
                 self.rep.count(&format!("panics:{}", entry));
                 None
@@ -144,13 +442,56 @@ impl Cx {
 
     fn finish(mut self) -> Report {
         let mut counts = serde_json::Map::new();
+        // panics are reported per SITE (class, file, enclosing fn, message); the entry points through which the
+        // site was reached are listed in the replay
+        let mut grouped: BTreeMap<String, (Finding, BTreeMap<String, u64>)> = BTreeMap::new();
         for (sig, f) in std::mem::take(&mut self.found) {
             counts.insert(sig.clone(), json!(f.count));
+            let (key, entry) = if sig.starts_with("panic|") {
+                match sig.rsplit_once('|') {
+                    Some((k, e)) => (k.to_string(), e.to_string()),
+                    None => (sig.clone(), String::new()),
+                }
+            } else {
+                (sig.clone(), String::new())
+            };
+            match grouped.get_mut(&key) {
+                Some((g, es)) => {
+                    g.count += f.count;
+                    for p in &f.props {
+                        if !g.props.contains(p) {
+                            g.props.push(p);
+                        }
+                    }
+                    *es.entry(entry).or_insert(0) += f.count;
+                    if f.size < g.size {
+                        g.size = f.size;
+                        g.replay = f.replay;
+                        g.what = f.what;
+                    }
+                }
+                None => {
+                    let mut es = BTreeMap::new();
+                    let c = f.count;
+                    es.insert(entry, c);
+                    grouped.insert(key, (f, es));
+                }
+            }
+        }
+        for (sig, (f, es)) in grouped {
             let mut replay = f.replay;
             if let J::Object(m) = &mut replay {
                 m.insert("occurrences".into(), json!(f.count));
+                if sig.starts_with("panic|") {
+                    m.insert("entry_points".into(), json!(es));
+                }
             }
-            self.rep.fail(&f.props, &sig, &f.what, replay);
+            let what = if sig.starts_with("panic|") {
+                format!("{} [reached through: {}]", f.what, es.iter().map(|(e, n)| format!("{} x{}", e, n)).collect::<Vec<_>>().join(", "))
+            } else {
+                f.what
+            };
+            self.rep.fail(&f.props, &sig, &what, replay);
         }
         self.rep.extra.insert("failure_counts".into(), J::Object(counts));
         self.rep.extra.insert("max_alloc_bytes_one_call".into(), json!(self.max_alloc));
@@ -892,6 +1233,7 @@ fn hydrate_strings(v: &automerge::hydrate::Value, out: &mut Vec<String>) {
 
 /// all reads of a document; returns a canonical rendering (None if some read panicked)
 fn read_everything(cx: &mut Cx, doc: &Automerge, stage: &str, len: usize, origin: &dyn Fn() -> J) -> Option<String> {
+    let light = stage == "merged";
     // one entry-point name per read, whatever stage of the C16 exercise the document is in
     let entry = |s: &str| format!("{}:{}", if stage.starts_with("api") { "api-read" } else { "loaded" }, s);
     let props: &[&'static str] = if stage.starts_with("api") { &["C37"] } else { &["C16"] };
@@ -934,6 +1276,9 @@ fn read_everything(cx: &mut Cx, doc: &Automerge, stage: &str, len: usize, origin
         }
     }
     for (id, _) in &cands {
+        if light {
+            break;
+        }
         let ty = match doc.object_type(id) {
             Ok(t) => t,
             Err(_) => continue,
@@ -1009,7 +1354,7 @@ fn read_everything(cx: &mut Cx, doc: &Automerge, stage: &str, len: usize, origin
         let _ = cx.call(props, &entry("parents"), len, origin, || doc.parents(id).map(|p| p.count()));
     }
     // historical reads at the heads of up to three changes
-    for c in changes.iter().take(3) {
+    for c in changes.iter().take(if light { 0 } else { 3 }) {
         let hs = [c.hash()];
         let _ = cx.call(props, &entry("observe_at"), len, origin, || observe(doc, &cands, Some(&hs)).map(|x| x.0));
         let _ = cx.call(props, &entry("hydrate_at"), len, origin, || doc.hydrate(Some(&hs)));
@@ -1220,11 +1565,15 @@ fn feed_loaders(cx: &mut Cx, seed: &Seed, bytes: &[u8], origin: &dyn Fn() -> J, 
     }
     for (which, target) in [("fresh", Automerge::new_with_encoding(seed.enc)), ("base", seed.base.clone())] {
         let mut t = target;
+        let heads_before = t.get_heads();
         let r = cx.call(&["C15"], "load_incremental", len, origin, || t.load_incremental(bytes).map_err(|e| e.to_string()));
         if let Some(Ok(_)) = r {
-            accepted += 1;
             cx.rep.count(&format!("load_incremental_ok:{}", which));
-            if exercise && which == "base" && first_loaded.is_none() {
+            let changed = guard(|| t.get_heads() != heads_before).unwrap_or(true);
+            if changed {
+                accepted += 1;
+            }
+            if exercise && which == "base" && first_loaded.is_none() && changed {
                 let _ = read_everything(cx, &t, "loaded", len, origin);
             }
         }
@@ -1357,6 +1706,7 @@ fn mutate_chunk(cx: &mut Cx, rng: &mut Rng, seed: &Seed, what: &str, ty: u8, dat
             ms[last].descr.push_str(&format!(" #{}", t2));
         }
     }
+    let mut jobs: Vec<Job<'_>> = vec![];
     for m in ms {
         let fty = if m.kind == "chunk-type" { m.descr.rsplit('#').next().and_then(|x| x.parse().ok()).unwrap_or(ty) } else { ty };
         let chunk = frame(fty, &m.data);
@@ -1366,34 +1716,52 @@ fn mutate_chunk(cx: &mut Cx, rng: &mut Rng, seed: &Seed, what: &str, ty: u8, dat
         cx.rep.case(Some(fnv(&file)));
         cx.rep.count(&format!("mutants:{}", m.kind));
         cx.rep.count(&format!("mutants-of:{}", what));
-        let origin = || json!({"seed": seed.name, "target": what, "mutation": m.kind, "descr": m.descr, "bytes": hex(&file)});
-        let acc = feed_loaders(cx, seed, &file, &origin, true);
-        if acc > 0 {
-            cx.rep.count(&format!("accepted:{}", m.kind));
-        }
-        if fty == 1 && prefix.is_empty() && suffix.is_empty() {
-            feed_change(cx, seed, &chunk, &origin);
-            // the same change, DEFLATE-compressed (chunk type 2)
-            if m.kind != "byte" || cx.thorough {
-                let z = frame_compressed(&m.data);
-                let origin_z = || json!({"seed": seed.name, "target": what, "mutation": m.kind, "descr": format!("{} (compressed)", m.descr), "bytes": hex(&z)});
-                feed_change(cx, seed, &z, &origin_z);
-                let _ = feed_loaders(cx, seed, &z, &origin_z, false);
-            }
-            // and inside a sync message
-            if m.kind != "byte" {
-                let msg = Message { heads: vec![], need: vec![], have: vec![], changes: vec![chunk.clone()].into(), flags: None, version: sync::MessageVersion::V1 };
-                receive(cx, seed, msg, chunk.len(), &origin);
-            }
-        }
-        if fty == 3 {
-            feed_bundle(cx, seed, &chunk, &origin);
-        }
+        let standalone = prefix.is_empty() && suffix.is_empty();
+        let thorough = cx.thorough;
+        let what_s = what.to_string();
+        let what_d = what.to_string();
+        let (kind, descr) = (m.kind, m.descr.clone());
+        let file_d = file.clone();
+        let size = file.len();
+        let mdata = m.data;
+        jobs.push(Job {
+            size,
+            descr: Box::new(move || json!({"seed": seed.name, "target": what_d, "mutation": kind, "descr": descr, "bytes": hex(&file_d)})),
+            run: Box::new(move |cx: &mut Cx| {
+                let mdescr = m.descr.clone();
+                let origin = || json!({"seed": seed.name, "target": what_s, "mutation": kind, "descr": mdescr, "bytes": hex(&file)});
+                let acc = feed_loaders(cx, seed, &file, &origin, true);
+                if acc > 0 {
+                    cx.rep.count(&format!("accepted:{}", kind));
+                }
+                if fty == 1 && standalone {
+                    feed_change(cx, seed, &chunk, &origin);
+                    // the same change, DEFLATE-compressed (chunk type 2)
+                    if kind != "byte" || thorough {
+                        let z = frame_compressed(&mdata);
+                        let origin_z = || json!({"seed": seed.name, "target": what_s, "mutation": kind, "descr": format!("{} (compressed)", mdescr), "bytes": hex(&z)});
+                        feed_change(cx, seed, &z, &origin_z);
+                        let _ = feed_loaders(cx, seed, &z, &origin_z, false);
+                    }
+                    // and inside a sync message
+                    if kind != "byte" {
+                        let msg = Message { heads: vec![], need: vec![], have: vec![], changes: vec![chunk.clone()].into(), flags: None, version: sync::MessageVersion::V1 };
+                        receive(cx, seed, msg, chunk.len(), &origin);
+                    }
+                }
+                if fty == 3 {
+                    feed_bundle(cx, seed, &chunk, &origin);
+                }
+            }),
+        });
     }
+    run_jobs(cx, jobs);
 }
 
 fn stream_documents(cx: &mut Cx, rng: &mut Rng, seeds: &[Seed], n_byte: usize, n_struct: usize) {
     for seed in seeds {
+        let t_seed = wall_ms();
+        let lost0 = cx.rep.dist.get("jobs_lost").copied().unwrap_or(0);
         // sanity: the originals load
         for (what, f) in [("save_nocompress", &seed.file_nc), ("save", &seed.file_c), ("save+incremental", &seed.incr)] {
             if !matches!(guard(|| Automerge::load_with_options(f, LoadOptions::new().text_encoding(seed.enc)).is_ok()), Ok(true)) {
@@ -1441,12 +1809,25 @@ fn stream_documents(cx: &mut Cx, rng: &mut Rng, seeds: &[Seed], n_byte: usize, n
             if mi >= 3 && !cx.thorough {
                 break;
             }
+            let mut jobs: Vec<Job<'_>> = vec![];
             for mu in byte_mutants(rng, m, 4, n_byte / 3) {
                 cx.rep.case(Some(fnv(&mu.data)));
                 cx.rep.count("mutants-of:sync-message");
-                let origin = || json!({"seed": seed.name, "target": "sync-message", "mutation": mu.kind, "descr": mu.descr, "bytes": hex(&mu.data)});
-                feed_message(cx, seed, &mu.data, &origin);
+                let d2 = mu.data.clone();
+                let (kind, descr) = (mu.kind, mu.descr.clone());
+                jobs.push(Job {
+                    size: mu.data.len(),
+                    descr: Box::new(move || json!({"seed": seed.name, "target": "sync-message", "mutation": kind, "descr": descr, "bytes": hex(&d2)})),
+                    run: Box::new(move |cx: &mut Cx| {
+                        let origin = || json!({"seed": seed.name, "target": "sync-message", "mutation": mu.kind, "descr": mu.descr, "bytes": hex(&mu.data)});
+                        feed_message(cx, seed, &mu.data, &origin);
+                    }),
+                });
             }
+            run_jobs(cx, jobs);
+        }
+        if std::env::var("ROBUST_VERBOSE").is_ok() {
+            eprintln!("  {}: {} ms, doc {} bytes, {} changes, jobs lost {}", seed.name, wall_ms() - t_seed, seed.file_nc.len(), seed.changes.len(), cx.rep.dist.get("jobs_lost").copied().unwrap_or(0) - lost0);
         }
     }
 }
@@ -1540,7 +1921,17 @@ fn stream_small(cx: &mut Cx, rng: &mut Rng, seeds: &[Seed], n: usize) {
     let seed = &seeds[1];
     let text_objs: Vec<ObjId> = cands.iter().filter(|c| c.1.is_sequence()).map(|c| c.0.clone()).collect();
 
+    let (valid_exid, valid_cursor, valid_cursor_s, hashes, bloom_valid, states, msgs, text_objs) =
+        (&valid_exid, &valid_cursor, &valid_cursor_s, &hashes, &bloom_valid, &states, &msgs, &text_objs);
+    let mut jobs: Vec<Job<'_>> = vec![];
     for i in 0..n {
+        let r0 = rng.fork();
+        jobs.push(Job {
+            size: 0,
+            descr: Box::new(move || json!({"stream": "small-decoders", "iteration": i})),
+            run: Box::new(move |cx: &mut Cx| {
+                let mut rr = r0.clone();
+                let rng = &mut rr;
         let raw = {
             let l = rng.below(24) as usize;
             rng.bytes(l)
@@ -1567,6 +1958,7 @@ fn stream_small(cx: &mut Cx, rng: &mut Rng, seeds: &[Seed], n: usize) {
                 pick_or_raw(rng, &bloom_valid)
             };
             let origin = || json!({"decoder": "BloomFilter", "bytes": hex(&b)});
+            shared_note(&origin().to_string());
             if let Some(Ok(f)) = cx.call(&["C15"], "BloomFilter::try_from", b.len(), &origin, || BloomFilter::try_from(&b[..])) {
                 let h = hashes[i % hashes.len().max(1)];
                 let _ = cx.call(&["C15"], "BloomFilter::contains_hash", b.len(), &origin, || f.contains_hash(&h));
@@ -1578,6 +1970,7 @@ fn stream_small(cx: &mut Cx, rng: &mut Rng, seeds: &[Seed], n: usize) {
         {
             let b = pick_or_raw(rng, &valid_exid);
             let origin = || json!({"decoder": "ObjId", "bytes": hex(&b)});
+            shared_note(&origin().to_string());
             if let Some(Ok(id)) = cx.call(&["C15"], "ObjId::try_from", b.len(), &origin, || ObjId::try_from(&b[..])) {
                 let _ = cx.call(&["C15", "C37"], "use-decoded-ObjId", b.len(), &origin, || {
                     let _ = doc.object_type(&id);
@@ -1593,9 +1986,10 @@ fn stream_small(cx: &mut Cx, rng: &mut Rng, seeds: &[Seed], n: usize) {
             }
             let b = pick_or_raw(rng, &valid_cursor);
             let origin = || json!({"decoder": "Cursor(bytes)", "bytes": hex(&b)});
+            shared_note(&origin().to_string());
             if let Some(Ok(c)) = cx.call(&["C15"], "Cursor::try_from(bytes)", b.len(), &origin, || Cursor::try_from(&b[..])) {
                 let _ = cx.call(&["C15", "C37"], "use-decoded-Cursor", b.len(), &origin, || {
-                    for t in &text_objs {
+                    for t in text_objs.iter() {
                         let _ = doc.get_cursor_position(t, &c, None);
                     }
                     let _ = doc.get_cursor_position(ROOT, &c, None);
@@ -1626,9 +2020,10 @@ fn stream_small(cx: &mut Cx, rng: &mut Rng, seeds: &[Seed], n: usize) {
                 rand_string(rng)
             };
             let origin = || json!({"decoder": "strings", "string": s});
+            shared_note(&origin().to_string());
             if let Some(Ok(c)) = cx.call(&["C15"], "Cursor::try_from(str)", s.len(), &origin, || Cursor::try_from(s.as_str())) {
                 let _ = cx.call(&["C15", "C37"], "use-decoded-Cursor", s.len(), &origin, || {
-                    for t in &text_objs {
+                    for t in text_objs.iter() {
                         let _ = doc.get_cursor_position(t, &c, None);
                     }
                 });
@@ -1649,12 +2044,14 @@ fn stream_small(cx: &mut Cx, rng: &mut Rng, seeds: &[Seed], n: usize) {
         {
             let b = pick_or_raw(rng, &states);
             let origin = || json!({"decoder": "sync::State", "bytes": hex(&b)});
+            shared_note(&origin().to_string());
             if let Some(Ok(st)) = cx.call(&["C15"], "State::decode", b.len(), &origin, || sync::State::decode(&b)) {
                 let mut st = st;
                 let _ = cx.call(&["C15"], "generate_sync_message", b.len(), &origin, || doc.generate_sync_message(&mut st).map(|m| m.encode().len()));
             }
             let b = pick_or_raw(rng, &msgs);
             let origin = || json!({"decoder": "sync::Message", "bytes": hex(&b)});
+            shared_note(&origin().to_string());
             feed_message(cx, seed, &b, &origin);
             cx.rep.case(None);
         }
@@ -1664,6 +2061,7 @@ fn stream_small(cx: &mut Cx, rng: &mut Rng, seeds: &[Seed], n: usize) {
             let pool: Vec<Vec<u8>> = vec![seeds[0].file_nc.clone(), seeds[0].changes[0].raw_bytes().to_vec(), seeds[0].bundle.clone().unwrap_or_default()];
             let b = pick_or_raw(rng, &pool);
             let origin = || json!({"decoder": "chunk", "bytes": hex(&b)});
+            shared_note(&origin().to_string());
             let _ = feed_loaders(cx, &seeds[0], &b, &origin, true);
             feed_change(cx, &seeds[0], &b, &origin);
             feed_bundle(cx, &seeds[0], &b, &origin);
@@ -1672,6 +2070,7 @@ fn stream_small(cx: &mut Cx, rng: &mut Rng, seeds: &[Seed], n: usize) {
             let body = raw.clone();
             let f = frame(ty, &body);
             let origin = || json!({"decoder": "chunk(random body, right checksum)", "bytes": hex(&f)});
+            shared_note(&origin().to_string());
             let _ = feed_loaders(cx, &seeds[0], &f, &origin, true);
             feed_change(cx, &seeds[0], &f, &origin);
             cx.rep.case(None);
@@ -1706,10 +2105,17 @@ fn stream_small(cx: &mut Cx, rng: &mut Rng, seeds: &[Seed], n: usize) {
                 raw.clone()
             };
             let origin = || json!({"decoder": "hexane::Column", "bytes": hex(&b)});
+            shared_note(&origin().to_string());
             hexane_columns(cx, &b, &origin);
             cx.rep.case(None);
         }
+                }),
+        });
+        if jobs.len() >= 250 {
+            run_jobs(cx, std::mem::take(&mut jobs));
+        }
     }
+    run_jobs(cx, jobs);
 }
 
 fn hexane_columns(cx: &mut Cx, b: &[u8], origin: &dyn Fn() -> J) {
@@ -1840,7 +2246,19 @@ fn stream_api(cx: &mut Cx, rng: &mut Rng, seeds: &[Seed], per_doc: usize) {
             ac
         };
         let big: String = "x\u{1F600}".repeat(if cx.thorough { 20_000 } else { 3_000 });
+        let (p, base, big) = (&p, &base, &big);
+        let thorough = cx.thorough;
+        let mut jobs: Vec<Job<'_>> = vec![];
         for k in 0..per_doc {
+            let r0 = rng.fork();
+            cx.rep.case(Some(fnv(format!("{}-{}", seed.name, k).as_bytes())));
+            jobs.push(Job {
+                size: 0,
+                descr: Box::new(move || json!({"stream": "api", "seed": seed.name, "call#": k})),
+                run: Box::new(move |cx: &mut Cx| {
+                    let mut rr = r0.clone();
+                    let rng = &mut rr;
+                    let _ = thorough;
             let (obj, oname) = rng.pick(&p.objs).clone();
             let (heads, hname) = rng.pick(&p.heads).clone();
             let len = guard(|| seed.doc.length(&obj)).unwrap_or(0);
@@ -1850,6 +2268,7 @@ fn stream_api(cx: &mut Cx, rng: &mut Rng, seeds: &[Seed], per_doc: usize) {
             let j = *rng.pick(&ix);
             let key = rng.pick(&["", "a", "k\u{e9}", "text", "list", "c", "\0", "zz-absent"]).to_string();
             let origin = || json!({"seed": seed.name, "obj": format!("{} ({})", obj, oname), "heads": hname, "i": i.to_string(), "j": j.to_string(), "key": key, "call#": k});
+            shared_note(&origin().to_string());
             let which = rng.below(40);
             let mut d = base.clone();
             let doc = &seed.doc;
@@ -1981,7 +2400,6 @@ fn stream_api(cx: &mut Cx, rng: &mut Rng, seeds: &[Seed], per_doc: usize) {
                     (r1, r2, g, ga, t, d.commit().is_some())
                 }),
             }
-            cx.rep.case(Some(fnv(format!("{}-{}-{}", seed.name, k, which).as_bytes())));
             // after a mutating call the document must still be readable / savable
             if which >= 16 && k % 8 == 0 {
                 let dd = d.document().clone();
@@ -1993,7 +2411,10 @@ fn stream_api(cx: &mut Cx, rng: &mut Rng, seeds: &[Seed], per_doc: usize) {
                     }
                 }
             }
+                        }),
+            });
         }
+        run_jobs(cx, jobs);
     }
 }
 
@@ -2044,21 +2465,36 @@ fn utf8_cases(cx: &mut Cx, rng: &mut Rng, cw: &mut CaseWriter, n: usize) {
 
 pub fn run(rng: &mut Rng, tier: &str, out: &str) -> Report {
     let thorough = tier == "thorough";
-    start_watchdog();
-    let mut cx = Cx { rep: Report::new("robust"), found: BTreeMap::new(), thorough, max_alloc: 0, max_cpu: 0 };
+    let mut cx = Cx::new(thorough);
     let mut cw = CaseWriter::new(out, "robust", HEADER, 100);
-    let n_seeds = if thorough { 14 } else { 5 };
+    let n_seeds = if thorough { 12 } else { 4 };
     let seeds: Vec<Seed> = (0..n_seeds).map(|i| build_seed(rng, if i < 3 { i } else { 3 }, i)).collect();
     for s in &seeds {
         cx.rep.add("seed_doc_bytes", s.file_nc.len() as u64);
         cx.rep.add("seed_changes", s.changes.len() as u64);
     }
     cx.rep.sample(json!({"kind": "seed", "name": seeds[1].name, "doc_bytes": seeds[1].file_nc.len(), "changes": seeds[1].changes.len(), "messages": seeds[1].messages.len()}));
-    stream_small(&mut cx, rng, &seeds, if thorough { 20_000 } else { 1_500 });
-    let (nb, ns) = if thorough { (4000, 3000) } else { (260, 260) };
-    stream_documents(&mut cx, rng, &seeds, nb, ns);
-    stream_api(&mut cx, rng, &seeds, if thorough { 3000 } else { 400 });
+    let t0 = wall_ms();
+    let only = std::env::var("ROBUST_ONLY").unwrap_or_default();
+    let want = |s: &str| only.is_empty() || only == s;
+    if want("small") {
+        stream_small(&mut cx, rng, &seeds, if thorough { 6_000 } else { 300 });
+    }
+    let t1 = wall_ms();
+    let (nb, ns) = if thorough { (90, 130) } else { (40, 60) };
+    if want("docs") {
+        stream_documents(&mut cx, rng, &seeds, nb, ns);
+    }
+    let t2 = wall_ms();
+    if want("api") {
+        stream_api(&mut cx, rng, &seeds, if thorough { 1200 } else { 250 });
+    }
+    let t3 = wall_ms();
     utf8_cases(&mut cx, rng, &mut cw, if thorough { 2000 } else { 300 });
+    cx.rep.extra.insert("wall_ms".into(), json!({"small_decoders": t1 - t0, "mutated_documents": t2 - t1, "api_arguments": t3 - t2}));
+    if std::env::var("ROBUST_VERBOSE").is_ok() {
+        eprintln!("small {} ms, docs {} ms, api {} ms", t1 - t0, t2 - t1, t3 - t2);
+    }
     cx.rep.model_cases = cw.total as u64;
     cw.finish();
     cx.finish()
